@@ -1904,7 +1904,16 @@ func (sc *serverConn) processHeaders(f *MetaHeadersFrame) error {
 	// receives an unexpected stream identifier MUST respond with
 	// a connection error (Section 5.4.1) of type PROTOCOL_ERROR.
 	if id <= sc.maxClientStreamID {
-		return sc.countError("stream_went_down", ConnectionError(ErrCodeProtocol))
+		// The stream is closed (or was implicitly closed without being used).
+		// This is what request trailers look like when they were already in
+		// flight while we reset the stream, e.g. with RST_STREAM(NO_ERROR) after
+		// a response that did not wait for the request body. RFC 9113 section 5.1
+		// requires an endpoint that sent RST_STREAM to ignore frames the peer
+		// sent before it could see the reset; it must not take down the other
+		// streams of the connection. We keep no state for closed streams, so
+		// treat it like DATA on a closed stream (see processData). The header
+		// block has already been run through the HPACK decoder by the Framer.
+		return sc.countError("headers_closed_stream", streamError(id, ErrCodeStreamClosed))
 	}
 	sc.maxClientStreamID = id
 
